@@ -15,6 +15,10 @@ From Coq Require Import ZArith QArith Qabs Qround Qcanon List Bool String Arith.
 From KV Require Import Base.Sx Gen.Generated Model.Applycal.
 Import ListNotations.
 
+(* the glue around the modelled pieces (per-input product loop, per-dump block loop, numbering of the inputs,
+   kernels wired onto vis / flags / weights) has the shape the model assumes: checked by the translator *)
+Definition wiring_checked : bool := applycal_wiring_checked && applycal_kernel_shapes_checked.
+
 (* ------------------------------------------------------------------ solutions *)
 Inductive solv := SNaN | SInf | SFin (re im : Qc).
 (* np.isfinite *)
